@@ -81,3 +81,18 @@ Example c07_example :
   encode_schema s vs = Some [200; 2; 255; 255; 128; 0; 0; 127; 3; 1; 2; 3] /\
   decode_schema s [200; 2; 255; 255; 128; 0; 0; 127; 3; 1; 2; 3] = Some (vs, []).
 Proof. vm_compute. repeat split. Qed.
+
+(* ---- the tie to the source text: the three header layouts ---------------------------------------
+   gen/GenEzspFn.v is emitted on every run from the Python AST of EZSPv4/v5/v8._ezsp_frame_tx/_rx
+   (harness/pysrc.py); which class's codec each version inherits is in gen/GenCmd.v. *)
+Require Import BV.gen.GenEzspFn BV.proofs.EzspSrc_proofs.
+
+Theorem c07_source_header_tx : forall seq id bs,
+  (header_tx 4 seq id = Some bs -> bs = py_v4_header_tx seq id) /\
+  (header_tx 5 seq id = Some bs -> bs = py_v5_header_tx seq id) /\
+  (header_tx 8 seq id = Some bs -> bs = py_v8_header_tx seq id).
+Proof. exact src_header_tx_all. Qed.
+
+Theorem c07_source_header_rx : forall d,
+  header_rx 4 d = py_v4_header_rx d /\ header_rx 5 d = py_v5_header_rx d /\ header_rx 8 d = py_v8_header_rx d.
+Proof. exact src_header_rx_all. Qed.
